@@ -186,7 +186,15 @@ func splitAtoms(atoms []atom, sep string, n int) [][]atom {
 func newVals(vs []aval, elem types.Type) avals {
 	var out avals
 	for i, v := range vs {
-		out.cells = append(out.cells, &aobj{name: fmt.Sprintf("elem%d", i), typ: elem, f: map[string]aval{"": v}})
+		c := &aobj{name: fmt.Sprintf("elem%d", i), typ: elem, f: map[string]aval{}}
+		if sv, ok := v.(astruct); ok {
+			for k, x := range sv.f {
+				c.f[k] = x // struct elements are stored field-wise, so that &s[i].f addresses them
+			}
+		} else {
+			c.f[""] = v
+		}
+		out.cells = append(out.cells, c)
 	}
 	return out
 }
@@ -917,7 +925,7 @@ func (e *absEnv) stdCall(fr *absFrame, name string, args []aval, depth int) (ava
 		case avals:
 			var out []aval
 			for _, c := range t.cells {
-				out = append(out, c.f[""])
+				out = append(out, e.cellVal(c))
 			}
 			return out, true
 		case aslice:
@@ -1065,4 +1073,12 @@ func (e *absEnv) stdCall(fr *absFrame, name string, args []aval, depth int) (ava
 		}
 	}
 	return nil, false
+}
+
+// cellVal: the value held by a slice cell (struct elements are stored field-wise and read back as a snapshot).
+func (e *absEnv) cellVal(c *aobj) aval {
+	if v, ok := c.f[""]; ok {
+		return v
+	}
+	return e.load(c, "")
 }
